@@ -8,17 +8,27 @@ pub fn eval_size_fees(tx: &[u8], pparams: &PParams, extra_fees: Option<u64>) -> 
         + extra_fees.unwrap_or(DEFAULT_EXTRA_FEES)
 }
 
-pub fn slot_to_time(slot: i128, cursor: &ChainPoint) -> i128 {
-    let current_time = cursor.timestamp as i128;
-    let time_diff = slot - cursor.slot as i128;
-    current_time + (time_diff * 1000)
+fn overflow(op: &str, value: i128) -> Error {
+    Error::InvalidUnaryOp(op.to_string(), format!("{value} (arithmetic overflow)"))
 }
 
-pub fn time_to_slot(time: i128, cursor: &ChainPoint) -> i128 {
+pub fn slot_to_time(slot: i128, cursor: &ChainPoint) -> Result<i128, Error> {
+    let current_time = i128::try_from(cursor.timestamp).map_err(|_| overflow("slot_to_time", slot))?;
+
+    slot.checked_sub(cursor.slot as i128)
+        .and_then(|time_diff| time_diff.checked_mul(1000))
+        .and_then(|time_diff| current_time.checked_add(time_diff))
+        .ok_or_else(|| overflow("slot_to_time", slot))
+}
+
+pub fn time_to_slot(time: i128, cursor: &ChainPoint) -> Result<i128, Error> {
     let current_slot = cursor.slot as i128;
-    let current_time = cursor.timestamp as i128;
-    let time_diff = time - current_time;
-    current_slot + (time_diff / 1000)
+    let current_time = i128::try_from(cursor.timestamp).map_err(|_| overflow("time_to_slot", time))?;
+
+    time.checked_sub(current_time)
+        .map(|time_diff| time_diff / 1000)
+        .and_then(|slot_diff| current_slot.checked_add(slot_diff))
+        .ok_or_else(|| overflow("time_to_slot", time))
 }
 
 // Compute min utxo lovelace according to spec
